@@ -7,7 +7,7 @@ import ast
 from ..kinds import is_cart, is_frac, wrapped
 from ..source import norm_text
 from .C10 import check_moves
-from .geo import ALL_ERRORS as KIND_ERRORS, all_geos, geo_text, uniq_events
+from .geo import ALL_ERRORS as KIND_ERRORS, all_geos, geo_text, under, uniq_events
 
 MODULES = ('gemdat.transitions', 'gemdat.jumps', 'gemdat.collective', 'gemdat.rdf', 'gemdat.volume', 'gemdat.path',
            'gemdat.trajectory', 'gemdat.metrics')
@@ -66,7 +66,7 @@ def check(ctx):
     # periodic tree frame
     pipe = ctx.pipeline()
     cas = ctx.fn('gemdat.transitions._calculate_atom_states')
-    for e in uniq_events(pipe, {'kdtree_coords'}, lambda f: f.qualname == cas.qualname):
+    for e in uniq_events(pipe, {'kdtree_coords'}, under(cas.qualname)):
         gs = all_geos(e['coords'])
         ok = bool(gs) and all(is_cart(g) and g[1] == 'MDA' for g in gs)
         ctx.ob('R1', cas, e['node'], True if ok else (None if not gs else False),
